@@ -113,6 +113,15 @@ def _listeners_field(prog):
             if isinstance(n, ast.Call) and isinstance(n.func, ast.Attribute) and n.func.attr == 'setdefault' and is_self_attr(n.func.value) and n.func.value.attr in fields:
                 used.add(n.func.value.attr)
         if len(used) != 1:
+            # several are written on subscription (an index beside the map): the map is the one the notification walks
+            for fname in ('fire_event', 'fire_timed_event'):
+                fire = prog.method(P, fname, inherited=False)
+                if fire is None:
+                    continue
+                walked = {n.attr for n in ast.walk(fire) if is_self_attr(n) and n.attr in fields}
+                if len(walked & (used or set(fields))) == 1:
+                    return (walked & (used or set(fields))).pop()
+        if len(used) != 1:
             raise AnalysisError(f'anchor vanished: EventProducer.__init__ assigns {fields}; cannot tell which one is the listener map')
         return used.pop()
     return fields[0]
